@@ -7,8 +7,8 @@ CONSTANTS
   Ports = {53}
   W = 2
   BufInit = 1
-  MaxReg = 4
-  MaxItems = 2
+  MaxReg = 3
+  MaxItems = 3
   Kinds = {"tcp"}
   Defect = "none"
 VIEW view
